@@ -303,6 +303,148 @@ CONTRACTS = [
 
 # ---------------------------------------------------------------------------- Model.__setattr__ / __delattr__ registration symmetry
 
+# ---------------------------------------------------------------------------- get_rpn: the program handed to the compiled evaluator
+
+def _rpn_case(kind, shape):
+    """operator classes x which operands are leaves: the node's program is its operands' programs in order followed by its opcode; the programs
+    stored for the operands (shared sub-expressions are consumed several times) are left as they were"""
+    def build(cx):
+        la, lb_, lc = cx.int("index_a"), cx.int("index_b"), cx.int("index_c")
+        A_, B_, C_ = E.Var(1.0), E.Var(2.0), E.Var(3.0)
+        ndx = {A_: la, B_: lb_, C_: lc}
+        subs = {}
+
+        def operand(tag, leaf, is_leaf):
+            if is_leaf:
+                return leaf, [ndx[leaf]]
+            node = E.AddOperator(leaf, leaf)            # some non-leaf node with a stored program of symbolic words
+            prog = [cx.int("word_%s_%d" % (tag, i)) for i in range(2)]
+            subs[node] = (prog, list(prog))
+            return node, prog
+        if kind == "binary":
+            cls = E.MultiplyOperator
+            o1, p1 = operand("x", A_, shape[0])
+            o2, p2 = (o1, p1) if shape == "shared" else operand("y", B_, shape[1])
+            if shape == "shared":
+                o1, p1 = operand("x", A_, False)
+                o2, p2 = o1, p1
+            op = cls(o1, o2)
+            want = p1 + p2 + [cls.operation_enum]
+        elif kind == "unary":
+            cls = E.AbsOperator
+            o1, p1 = operand("x", A_, shape[0])
+            op = cls(o1)
+            want = p1 + [cls.operation_enum]
+        elif kind == "inequality":
+            o1, p1 = operand("x", A_, shape[0])
+            op = E.InequalityOperator(o1, B_, C_)
+            want = p1 + [lb_, lc, E.OperationEnum.inequality.value]
+        else:
+            o1, p1 = operand("i", A_, shape[0])
+            o2, p2 = operand("t", B_, shape[1])
+            o3, p3 = operand("e", C_, shape[2])
+            op = E.IfElseOperator(o1, o2, o3)
+            want = p1 + p2 + p3 + [E.OperationEnum.if_else.value]
+        rpn_map = {k: v[0] for k, v in subs.items()}
+        cx.target(type(op).get_rpn, op, rpn_map, ndx)
+
+        def post(out):
+            if not out.returned:
+                return []
+            got = rpn_map.get(op)
+            same = got is not None and len(got) == len(want) and all((library.as_int(g) == library.as_int(w)) if isinstance(g, SV) or isinstance(w, SV) else g == w
+                                                                      for g, w in zip(got, want))
+            posts = [("program_is_the_operands_programs_in_order_then_the_opcode",
+                      z3.And(*[(library.as_int(g) == library.as_int(w)) if isinstance(g, SV) or isinstance(w, SV) else z3.BoolVal(g == w) for g, w in zip(got, want)])
+                      if got is not None and len(got) == len(want) else False)]
+            untouched = all(len(rpn_map[k]) == len(v[1]) and all(a is b for a, b in zip(rpn_map[k], v[1])) for k, v in subs.items())
+            posts.append(("stored_programs_of_the_operands_left_as_they_were", untouched))
+            posts.append(("own_program_is_a_fresh_list", all(got is not rpn_map[k] for k in subs)))
+            return posts
+        cx.ensure(post)
+    return Case("%s,%s" % (kind, shape if isinstance(shape, str) else ",".join("leaf" if x else "node" for x in shape)), build, crosscheck=False)
+
+
+_rpn_cases = [_rpn_case("binary", sh) for sh in ((True, True), (True, False), (False, True), (False, False), "shared")] + \
+             [_rpn_case("unary", sh) for sh in ((True,), (False,))] + [_rpn_case("inequality", sh) for sh in ((True,), (False,))] + \
+             [_rpn_case("if_else", sh) for sh in ((False, True, True), (False, False, True), (False, True, False), (False, False, False), (True, True, True))]
+
+
+# ---------------------------------------------------------------------------- Leaf.value: python side and compiled side stay in step
+
+class _CObj(NativeModel):
+    def __init__(self, value):
+        self.value = value
+
+
+def _leaf_value_case(cls, registered, same_as_cached):
+    def build(cx):
+        cached, stale, new = cx.real("python_side_value"), cx.real("compiled_side_value"), cx.real("assigned")
+        if same_as_cached:
+            cx.assume(cx.t(new) == cx.t(cached), cx.t(stale) != cx.t(cached))   # the compiled side moved on (load_var_values_from_x), then the old value is assigned again
+        c = _CObj(stale) if registered else None
+        leaf = cx.obj(cls, _value=cached, _c_obj=c, name="x")
+
+        def assign_and_read(lf, v):
+            lf.value = v
+            return lf.value
+        cx.interp.interpret_always = tuple(cx.interp.interpret_always) + (assign_and_read,)
+        cx.target(assign_and_read, leaf, new)
+
+        def post(out):
+            if not out.returned:
+                return []
+            posts = [("reading_back_gives_the_assigned_value", Rr(out.value) == cx.t(new)),
+                     ("python_side_holds_the_assigned_value", Rr(cx.interp.getattr(leaf, "_value")) == cx.t(new))]
+            if registered:
+                posts.append(("compiled_side_holds_the_assigned_value", Rr(c.value) == cx.t(new)))
+            return posts
+        cx.ensure(post)
+    return Case("%s,registered=%s,assigning_the_cached_value_again=%s" % (cls.__name__, registered, same_as_cached), build, crosscheck=False)
+
+
+# ---------------------------------------------------------------------------- the order of the reverse sweep
+
+def _sweep_case(pattern):
+    """`pattern` is the forward operator list as indices into distinct operator objects (a shared sub-expression occurs several times); the reverse sweep
+    must visit every operator once, and an operator only after every later occurrence of it, i.e. in decreasing order of FIRST occurrence: then
+    each operator's adjoint is complete (all its consumers come later in the forward list than its first occurrence) when it is propagated"""
+    def build(cx):
+        leaf = E.Var(1.0)
+        ops = [E.NegationOperator(leaf) for _ in range(max(pattern) + 1)]
+        ex = E.expression()
+        for i in pattern:
+            ex.append_operator(ops[i])
+        cx.target(lambda e: list(e._operators_for_reverse_sweep()), ex)
+
+        def post(out):
+            if not out.returned:
+                return []
+            first = {}
+            for pos, i in enumerate(pattern):
+                first.setdefault(i, pos)
+            want = [ops[i] for i in sorted(first, key=lambda i: -first[i])]
+            got = out.value
+            return [("every_operator_once_in_decreasing_order_of_first_occurrence", len(got) == len(want) and all(a is b for a, b in zip(got, want)))]
+        cx.ensure(post)
+    return Case("forward order %s" % "".join("abcd"[i] for i in pattern), build, crosscheck=False)
+
+
+def _patterns(maxlen=5, k=3):
+    import itertools
+    out = []
+    for n in range(1, maxlen + 1):
+        for pat in itertools.product(range(k), repeat=n):
+            # canonical labelling (first occurrences in order 0,1,2) and every label used up to the maximum
+            seen = []
+            for i in pat:
+                if i not in seen:
+                    seen.append(i)
+            if seen == list(range(len(seen))):
+                out.append(tuple(pat))
+    return out
+
+
 class _Con(NativeModel):
     def __init__(self, tag):
         self.tag, self.name = tag, None
@@ -361,6 +503,12 @@ def _setattr_case(kind):
     return Case("set:%s" % kind, build, crosscheck=False)
 
 
+CONTRACTS.append(Contract("wntr.sim.aml.expr:Operator subclasses.get_rpn", P, _rpn_cases,
+                          note="program words and leaf indices symbolic; stored programs of non-leaf operands are lists of two symbolic words"))
+CONTRACTS.append(Contract("wntr.sim.aml.expr:Leaf.value (setter + getter)", P, [_leaf_value_case(c_, r_, s_) for c_ in (E.Var, E.Param) for r_ in (False, True) for s_ in (False, True)]))
+CONTRACTS.append(Contract("wntr.sim.aml.expr:expression._operators_for_reverse_sweep", P, [_sweep_case(p_) for p_ in _patterns()],
+                          note="enumerated: every forward operator list of length <= 5 over <= 3 distinct operators (up to renaming) - a case split by the contract, "
+                               "complete only up to that length"))
 CONTRACTS.append(Contract("wntr.sim.aml.aml:Model.__setattr__/__delattr__", P,
                           [_setattr_case("constraint"), _setattr_case("constraint_dict"), _delattr_case("constraint"), _delattr_case("constraint_dict")],
                           models=_attr_models, interpret_always=(A.Model.__delattr__, A.Model.__setattr__)))
